@@ -1570,7 +1570,8 @@ pub fn implicit_cast_type(op: &ArithOp, ty1: &Type, ty2: &Type) -> Type {
         Mod | Rem | Shl | Shr | BitXOr | BitOr | BitAnd => types::promote_types(ty1, ty2),
 
         Div => {
-            if matches!(ty1, Type::Float(..)) || matches!(ty2, Type::Float(..)) {
+            let float_or_complex = |ty: &Type| matches!(ty, Type::Float(..) | Type::Complex(..));
+            if float_or_complex(ty1) || float_or_complex(ty2) {
                 types::promote_types(ty1, ty2)
             } else {
                 Type::Float(None, IsConst::False)
